@@ -48,6 +48,10 @@ def out_term(o):
     return C("Raise", C(o[1]))
 
 
+def is_early(op):
+    return op[-1] == "E"
+
+
 def op_term(op):
     k = op[0]
     if k == "Get":
@@ -64,15 +68,18 @@ def op_term(op):
 def to_term(case, obs):
     classes = [C("mkClass", [(name_term(n), pol_term(p)) for n, p in cd["decls"]], [Nat(b) for b in cd["bases"]])
                for cd in case["classes"]]
+    nlate = case.get("nlate", 0)
     h = [(op_term(op), C("mkObs", out_term(ob["out"]), opt(ob["stored"]))) for op, ob in zip(case["ops"], obs)]
-    return (classes, Nat(case["cls"]), h)
+    ne = sum(1 for op in case["ops"] if is_early(op))
+    return (classes[:len(classes) - nlate], Nat(case.get("precls", case["cls"])), h[:ne],
+            classes[len(classes) - nlate:], Nat(case["cls"]), h[ne:])
 
 
 # ----- failure signatures ----------------------------------------------------
 def live_instance_trait(case, step, name):
     pol = None
     for op in case["ops"][:step]:
-        if op[1] != name:
+        if op[1] != name or is_early(op) != is_early(case["ops"][step]):
             continue
         if op[0] == "Add":
             pol = op[2]
@@ -83,7 +90,7 @@ def live_instance_trait(case, step, name):
 
 def stored_before(case, obs, step, name):
     for j in range(step - 1, -1, -1):
-        if case["ops"][j][1] == name:
+        if case["ops"][j][1] == name and is_early(case["ops"][j]) == is_early(case["ops"][step]):
             return obs[j]["stored"]
     return None
 
@@ -91,6 +98,9 @@ def stored_before(case, obs, step, name):
 def key_fn(case, obs, step, clause):
     op = case["ops"][step]
     kind, what = KIND.get(clause // 10, clause // 10), WHAT.get(clause % 10, clause % 10)
+    if case.get("nlate", 0) > 0 and not is_early(op) and any(
+            is_early(e) and e[1] == op[1] and e[0] in ("Get", "Set", "Del") for e in case["ops"]):
+        return "class-created-after-use-inherits-cached-wildcard-resolution"
     if op[0] == "Get" and clause in (21, 42, 51) and obs[step]["out"][0] == "Val":
         pol = live_instance_trait(case, step, op[1])
         sb = stored_before(case, obs, step, op[1])
@@ -101,13 +111,16 @@ def key_fn(case, obs, step, clause):
 
 def describe(case, obs, step, clause):
     op = case["ops"][step]
-    return ("name %r on an instance of class %d of %s: governing policy %s, clause %s fails at step %d op %r: "
-            "observed %r" % (op[1], case["cls"], json.dumps(case["classes"]), KIND.get(clause // 10),
+    return ("name %r on an instance of class %d%s of %s: governing policy %s, clause %s fails at step %d op %r: "
+            "observed %r" % (op[1], case["precls"] if is_early(op) else case["cls"],
+                             " (last %d classes created after the early operations on an instance of class %d)" % (
+                                 case["nlate"], case["precls"]) if case.get("nlate") else "",
+                             json.dumps(case["classes"]), KIND.get(clause // 10),
                              WHAT.get(clause % 10), step, op, obs[step]))
 
 
 def nontrivial(case, obs):
-    sig = repr((case["classes"], case["cls"], case["ops"]))
+    sig = repr((case["classes"], case["cls"], case.get("nlate", 0), case.get("precls"), case["ops"]))
     nt = any(o["out"][0] == "Raise" for o in obs) and any(o["out"][0] != "Raise" for o in obs)
     return sig, nt
 
@@ -269,6 +282,35 @@ def random_history(h, rnd, ctx, maxlen):
     return dict(h, ops=ops, kind="history")
 
 
+def random_op(rnd, ctx, names, early=False):
+    n = rnd.choice(names)
+    k = rnd.choice(["Get", "Get", "Get", "Set", "Set", "Set", "Del", "Add", "Add", "Rem"])
+    if k == "Set":
+        op = [k, n, rnd.choice(VALUES)]
+    elif k == "Add":
+        op = [k, n, rnd.choice(POLS)]
+    else:
+        op = [k, n]
+    ctx.count(("early-op:" if early else "op:") + k)
+    return op + ["E"] if early else op
+
+
+def staged_history(h, rnd, ctx, maxlen):
+    """An early history on another instance (same class: shared cache; or a class that exists before
+    the last classes are created: the cache is inherited), then the main history."""
+    n = len(h["classes"])
+    if n >= 2 and rnd.random() < 0.6:
+        nlate = rnd.randint(1, n - 1)
+        precls = NROOTS + rnd.randrange(n - nlate)
+        kind = "staged-late-classes"
+    else:
+        nlate, precls, kind = 0, h["cls"], "staged-second-instance"
+    names = focus_names(h, rnd)
+    ops = [random_op(rnd, ctx, names, True) for _ in range(rnd.randint(1, 8))]
+    ops += [random_op(rnd, ctx, names) for _ in range(rnd.randint(3, maxlen))]
+    return dict(h, ops=ops, nlate=nlate, precls=precls, kind=kind)
+
+
 def corpus():
     """Triggers of the listed finding and minimised past failures: run first, on every run."""
     cs = []
@@ -276,6 +318,17 @@ def corpus():
     for pol in (["Event"], ["Disallow"], ["Constant", 3]):
         cs.append(dict(h, ops=[["Set", "ab", 5], ["Add", "ab", pol], ["Get", "ab"], ["Rem", "ab"], ["Get", "ab"]],
                        kind="corpus"))
+    # a class created after an instance of its base resolved 'ab' through the base's wildcard
+    late = {"classes": [{"decls": [["a_", ["Typed", "VInt", 7]]], "bases": [0]},
+                        {"decls": [["a_", ["Typed", "VStr", 102]]], "bases": [3]}], "cls": 4, "nlate": 1, "precls": 3}
+    cs.append(dict(late, ops=[["Set", "ab", 1, "E"], ["Set", "ab", 101], ["Get", "ab"], ["Set", "aa", 101], ["Get", "aa"]],
+                   kind="corpus"))
+    # two instances of one class share the cache, not the instance traits nor the values
+    two = {"classes": [{"decls": [["a_", ["Typed", "VInt", 7]], ["b_", ["ReadOnly"]]], "bases": [1]}], "cls": 3,
+           "nlate": 0, "precls": 3}
+    cs.append(dict(two, ops=[["Set", "ab", 1, "E"], ["Add", "ab", ["Event"], "E"], ["Set", "bb", 1, "E"], ["Get", "ab"],
+                             ["Set", "ab", 101], ["Set", "bb", 2], ["Set", "bb", 3], ["Rem", "ab"], ["Get", "ab"]],
+                   kind="corpus"))
     hs = {"classes": [{"decls": [["a_", ["Typed", "VInt", 7]]], "bases": [1]}], "cls": 3}
     cs.append(dict(hs, ops=[["Get", "ab"], ["Add", "ab", ["ReadOnly"]], ["Set", "ab", 1], ["Set", "ab", 2], ["Get", "ab"],
                             ["Rem", "ab"], ["Get", "ab"], ["Set", "ab", 101], ["Get", "b"], ["Set", "b", 1]],
@@ -314,15 +367,16 @@ def run(ctx):
         if ctx.tier == "quick":
             hiers = fixed + [gen_hierarchy(rnd, ctx) for _ in range(12)]
             names = rnd.sample(NAMES, 14) + DUNDERS[:1]
-            nhist, maxlen, group = 250, 12, 5
+            nhist, maxlen, group, nstaged = 250, 12, 5, 150
         else:
             hiers = fixed + [gen_hierarchy(rnd, ctx) for _ in range(40)]
             names = ALL_NAMES
-            nhist, maxlen, group = 8000, 30, 6
+            nhist, maxlen, group, nstaged = 8000, 30, 6, 4000
             ctx.cov["exhaustive"] = True
         cases = corpus() + probe_cases(hiers, names, group, ctx, rnd)
         pool = fixed + [gen_hierarchy(rnd, ctx) for _ in range(60 if ctx.tier == "quick" else 600)]
         cases += [random_history(rnd.choice(pool), rnd, ctx, maxlen) for _ in range(nhist)]
+        cases += [staged_history(rnd.choice(pool), rnd, ctx, maxlen) for _ in range(nstaged)]
         ctx.count("hierarchies", len(hiers) + len(pool))
     for c in cases:
         ctx.count("case:" + c.get("kind", "replay"))
